@@ -264,12 +264,12 @@ func (w *e1World) exec(t *task, tc *taskCtx, d opDesc) {
 }
 
 type e1Config struct {
-	prop     string
-	shared   bool // C13: every task works on logs[0]; C14: any log
-	nlogs    int
-	ntasks   int
-	tasks    [][]opDesc
-	preJoin  bool
+	prop    string
+	shared  bool // C13: every task works on logs[0]; C14: any log
+	nlogs   int
+	ntasks  int
+	tasks   [][]opDesc
+	preJoin bool
 }
 
 func genE1(r *Run, prop string) (*e1World, *e1Config) {
